@@ -158,7 +158,9 @@ impl<'a, P: for<'p> Protocol<'p>> DemoWriter<'a, P> {
         // They don't rely on the last keyframe.
         // For that, we always need to store the newest snap.
         self.snap = new_snap;
-        self.builder = old_snap.recycle();
+        // Keep the numbering of the extended item types of the snapshot the
+        // next delta is going to be relative to.
+        self.builder = old_snap.recycle_like(&self.snap);
         self.buf.clear();
         self.last_tick = tick;
         if is_keyframe {
